@@ -556,6 +556,7 @@ def confirm_in_fresh_process(machine, path):
 # determinism self-test
 
 def digests_for(machine, seed, indices, jobs):
+    machine.master_seed = seed
     b = Batch(machine, seed, 0, jobs)
     out = {}
     for i in indices:
@@ -616,6 +617,7 @@ def run_check(machine, tier, seed=None, runs=None, jobs=None):
     print("SEED %d property=%s tier=%s runs=%d jobs=%d repo=%s" %
           (seed, machine.pid, tier, runs, jobs, REPO))
     sys.stdout.flush()
+    machine.master_seed = seed
     machine.setup()
     known = load_known(machine.pid)
     open_known = [e for e in known if e.get("status") == "open"]
